@@ -1112,7 +1112,9 @@ STATEFUL = lambda: [
     [G.op_simple('distinct', f=fn('id'))], [G.op_simple('duc', f=fn('id'))],
     [G.op_simple('lag', n=1)], [G.op_simple('lag', n=2)],
     [G.op_simple('pad_start', n=1, v=NONE)], [G.op_simple('pad_end', n=1, v=NONE)],
+    [G.op_simple('pad_start', n=2, v=I(7))], [G.op_simple('pad_end', n=2, v=I(9))],       # (an explicit padding value)
     [G.op_simple('start_with', p=[I(7)])], [G.op_simple('batch', n=2)],
+    [G.op_simple('batch', n=2), G.op_simple('to_list')],      # (a consumer that keeps the batches it received)
     [G.op_simple('assert1', p=fn('true'))],
     [G.op_tee('zip', [[G.op_filter('ltc', 2)], [G.op_filter('gec', 2)]])],
     [G.op_tee('combine_latest', [[G.op_filter('even')], []])],
@@ -1179,6 +1181,19 @@ def cases_c02(rng, thorough):
                                 [G.op_split('divc', 2, [_scan_add()])], [G.op_simple('distinct', f=fn('id'))]],
                           3 if thorough else 1)
     cases += multi_source_cases(rng, 60 if thorough else 15)
+    # fixed schedules: a key holds a pending value of one zip branch while another key emits a
+    # tuple (in both index orders); every lifetime of two interleaved keys needs its padding;
+    # full batches kept by their consumer until the end
+    ev = lambda t, k, v=None: {'t': t, 'k': [k]} if v is None else {'t': t, 'k': [k], 'v': I(v)}
+    zt = [G.op_tee('zip', [[G.op_map('addc', 10)], [G.op_filter('even')]])]
+    for a, b in ((0, 1), (1, 0), (0, 3)):
+        cases.append(mux_case(zt, [ev('c', a), ev('c', b), ev('n', a, 1), ev('n', b, 2), ev('n', a, 2), ev('n', b, 3),
+                                   ev('n', b, 4), ev('n', a, 4), ev('d', a), ev('d', b)]))
+    for op in ([G.op_simple('pad_start', n=2, v=I(7))], [G.op_simple('pad_end', n=2, v=I(9))],
+               [G.op_simple('batch', n=2), G.op_simple('to_list')]):
+        cases.append(mux_case(op, [ev('c', 0), ev('c', 1), ev('n', 0, 1), ev('n', 1, 2), ev('n', 0, 3), ev('n', 1, 4),
+                                   ev('d', 0), ev('c', 0), ev('n', 0, 5), ev('n', 0, 6), ev('d', 1), ev('d', 0)]))
+        cases.append(src_case(op, G.ints([1, 2, 3, 4])))
     # every with_memory_store is a store section of its own: the pipeline next to two other
     # with_memory_store pipelines subscribed to the same feed (one before, one after it)
     for inner in STATEFUL():
